@@ -179,7 +179,7 @@ func (p *commitStore) getCommitForCommitKey(
 	}
 	if !externalCommit.isValid() {
 		invalidReason = "invalid"
-		return nil, err
+		return nil, fmt.Errorf("invalid commit file from cache for %s: %+v", commitKey.String(), externalCommit)
 	}
 	digest, err := bufmodule.ParseDigest(externalCommit.Digest)
 	if err != nil {
@@ -188,7 +188,7 @@ func (p *commitStore) getCommitForCommitKey(
 	}
 	if commitKey.DigestType() != digest.Type() {
 		invalidReason = "mismatched digest type"
-		return nil, err
+		return nil, fmt.Errorf("mismatched digest type in commit file from cache for %s: %v", commitKey.String(), digest.Type())
 	}
 	moduleFullName, err := bufparse.NewFullName(
 		commitKey.Registry(),
